@@ -40,6 +40,9 @@ static size_t snappy_read_varint(const uint8_t* p, const uint8_t* end, uint32_t*
 
     while (p < end) {
         uint8_t b = *p++;
+        if (shift == 28 && (b & 0x7F) > 0x0F) {
+            return 0; /* Value does not fit in 32 bits */
+        }
         *value |= ((uint32_t)(b & 0x7F)) << shift;
         if ((b & 0x80) == 0) {
             return (size_t)(p - start);
